@@ -829,7 +829,7 @@ fn parse_sched(c: &[u64]) -> Option<([u64; 5], [u64; 5], Vec<Vec<u64>>)> {
             0 => 4,
             1 => 5,
             2 | 3 | 5 => 3,
-            4 | 6 | 7 | 8 => 2,
+            4 | 6 | 7 | 8 | 11 => 2,
             9 => 4,
             10 => 1,
             _ => return None,
@@ -893,10 +893,38 @@ fn enc_event(e: Option<Option<NotificationEvent>>, out: &mut Vec<u64>, sink_per:
     }
 }
 
-async fn run_steps(ca: [u64; 5], cb: [u64; 5], steps: &[Vec<u64>]) -> (Vec<u64>, Vec<Vec<bool>>) {
+/// What the step generator may look at: the pending send_async futures of each endpoint, whether its
+/// handle holds a sink and whether its Connection task is alive (index x: 0 = B, 1 = A).
+#[derive(Default)]
+struct Feedback {
+    pending: [Vec<u64>; 2],
+    open: [bool; 2],
+    alive: [bool; 2],
+}
+
+trait StepSrc {
+    fn next(&mut self, fb: &Feedback) -> Option<Vec<u64>>;
+}
+
+struct Fixed(std::collections::VecDeque<Vec<u64>>);
+impl StepSrc for Fixed {
+    fn next(&mut self, _: &Feedback) -> Option<Vec<u64>> {
+        self.0.pop_front()
+    }
+}
+
+async fn run_steps(
+    ca: [u64; 5],
+    cb: [u64; 5],
+    src: &mut dyn StepSrc,
+) -> (Vec<Vec<u64>>, Vec<u64>, Vec<Vec<bool>>) {
     let mut w = SWorld::new(ca, cb);
     let mut out = vec![2u64];
-    for a in steps {
+    let mut done: Vec<Vec<u64>> = Vec::new();
+    let mut fb = Feedback::default();
+    while let Some(a) = src.next(&fb) {
+        let a = &a;
+        done.push(a.clone());
         let x = a.get(1).copied().unwrap_or(0).min(1) as usize;
         match a[0] {
             0 => {
@@ -1027,9 +1055,19 @@ async fn run_steps(ca: [u64; 5], cb: [u64; 5], steps: &[Vec<u64>]) -> (Vec<u64>,
                     out.push(0);
                 }
             }
+            // the protocol takes a command but its force_close() fails (connection already gone)
+            11 => match w.eps[x].side.command_rx.try_recv() {
+                Ok(NotificationCommand::ForceClose { .. }) => out.push(1),
+                _ => out.push(0),
+            },
             _ => unreachable!(),
         }
         w.dump(&mut out);
+        for x in [0usize, 1] {
+            fb.pending[x] = w.eps[x].futs.iter().map(|(id, _)| *id).collect();
+            fb.open[x] = w.eps[x].sink_per.is_some();
+            fb.alive[x] = w.alive(x);
+        }
     }
     let pops = take_pops();
     let hints = w
@@ -1037,135 +1075,229 @@ async fn run_steps(ca: [u64; 5], cb: [u64; 5], steps: &[Vec<u64>]) -> (Vec<u64>,
         .iter()
         .map(|id| pops.iter().filter(|(s, _)| s == id).map(|(_, m)| *m).collect())
         .collect();
-    (out, hints)
+    (done, out, hints)
+}
+
+fn run_src(ca: [u64; 5], cb: [u64; 5], src: &mut dyn StepSrc) -> (Vec<u64>, Vec<u64>) {
+    let _ = take_pops();
+    let r = catch_unwind(AssertUnwindSafe(|| {
+        let rt = tokio::runtime::Builder::new_current_thread().enable_all().build().unwrap();
+        rt.block_on(run_steps(ca, cb, src))
+    }));
+    match r {
+        Ok((steps, trace, hints)) => (encode_sched(&ca, &cb, &steps, &hints), trace),
+        Err(_) => (encode_sched(&ca, &cb, &[], &[]), vec![PANIC_MARK]),
+    }
 }
 
 fn run_sched(c: &[u64]) -> (Vec<u64>, Vec<u64>) {
     let Some((ca, cb, steps)) = parse_sched(c) else {
         return (c.to_vec(), vec![0]);
     };
-    let _ = take_pops();
-    let r = catch_unwind(AssertUnwindSafe(|| {
-        let rt = tokio::runtime::Builder::new_current_thread().enable_all().build().unwrap();
-        rt.block_on(run_steps(ca, cb, &steps))
-    }));
-    match r {
-        Ok((trace, hints)) => (encode_sched(&ca, &cb, &steps, &hints), trace),
-        Err(_) => (encode_sched(&ca, &cb, &steps, &[]), vec![PANIC_MARK]),
+    let (c2, t) = run_src(ca, cb, &mut Fixed(steps.iter().cloned().collect()));
+    if t == vec![PANIC_MARK] {
+        return (encode_sched(&ca, &cb, &steps, &[]), t);
+    }
+    (c2, t)
+}
+
+/// Generator of scheduler cases. The steps are chosen while the case runs, so that polls and drops
+/// name futures that are really pending and most sends happen while the stream is open; the emitted
+/// case contains the executed steps, which is all the model sees.
+struct SGen {
+    rng: Rng,
+    cfgs: [[u64; 5]; 2], // index x
+    big: bool,
+    single: bool,
+    only_mode: [u64; 2],
+    nsteps: usize,
+    emitted: usize,
+    tag: u64,
+    next_id: u64,
+    queue: std::collections::VecDeque<Vec<u64>>,
+    // a stretch during which one Connection is not polled (its queues and waiters build up)
+    starve: Option<(u64, u64)>,
+}
+
+impl SGen {
+    fn new(mut rng: Rng, thorough: bool) -> Self {
+        let big = rng.chance(25);
+        let single = rng.chance(35);
+        let only_mode = [rng.below(2), rng.below(2)];
+        let mut cfgs = [[0u64; 5]; 2];
+        for c in cfgs.iter_mut() {
+            let mx = if big { rng.pick(&[30_000u64, 50_000]) } else { rng.pick(&[8u64, 16, 64, 100]) };
+            *c = [rng.pick(&[1u64, 2, 16]), rng.pick(&[1u64, 2, 3, 16]), rng.pick(&[1u64, 4, 64]), rng.pick(&[1u64, 2, 64]), mx];
+        }
+        let nsteps = if thorough { rng.range(40, 500) } else { rng.range(20, 140) } as usize;
+        let mut queue = std::collections::VecDeque::new();
+        if rng.chance(92) {
+            let first = rng.below(2);
+            queue.push_back(vec![6, first]);
+            queue.push_back(vec![6, 1 - first]);
+            if rng.chance(88) {
+                queue.push_back(vec![5, 1, 128]);
+                queue.push_back(vec![5, 0, 128]);
+            }
+        }
+        SGen { rng, cfgs, big, single, only_mode, nsteps, emitted: 0, tag: 0, next_id: 0, queue, starve: None }
+    }
+
+    fn size(&mut self, x: usize) -> u64 {
+        let own = self.cfgs[x][4];
+        let other = self.cfgs[1 - x][4];
+        let m = own.min(other);
+        let rng = &mut self.rng;
+        match rng.below(100) {
+            0..=2 => own + rng.range(1, 3),
+            3..=6 => m + 1,
+            7..=12 => m.max(4),
+            13..=18 => 4,
+            _ => if self.big { rng.range(m / 2, m) } else { rng.range(4, m.max(4)) },
+        }
+    }
+
+    fn send(&mut self, x: u64, mode: u64) -> Vec<u64> {
+        self.tag += 1;
+        let m = if self.single { self.only_mode[x as usize] } else { mode };
+        let sz = self.size(x as usize);
+        if m == 0 {
+            vec![0, x, self.tag, sz]
+        } else {
+            self.next_id += 1;
+            vec![1, x, self.next_id, self.tag, sz]
+        }
+    }
+
+    fn fill(&mut self, fb: &Feedback) {
+        let x = self.rng.below(2);
+        let xi = x as usize;
+        if let Some((sx, left)) = self.starve {
+            self.starve = if left == 0 { None } else { Some((sx, left - 1)) };
+        }
+        // both streams closed: reopen soon, but leave room for sends to a closed stream
+        if !fb.alive[0] && !fb.alive[1] && self.rng.chance(35) {
+            self.queue.push_back(vec![6, x]);
+            self.queue.push_back(vec![6, 1 - x]);
+            self.queue.push_back(vec![5, 1, 128]);
+            self.queue.push_back(vec![5, 0, 128]);
+            return;
+        }
+        if fb.alive[xi] && !fb.open[xi] && self.rng.chance(50) {
+            self.queue.push_back(vec![5, x, 128]);
+            return;
+        }
+        if !fb.pending[xi].is_empty() && self.rng.chance(22) {
+            // the woken sender runs: mostly the oldest one, as the semaphore is fair
+            let p = &fb.pending[xi];
+            let id = if self.rng.chance(70) { p[0] } else { p[self.rng.below(p.len() as u64) as usize] };
+            self.queue.push_back(vec![2, x, id]);
+            if self.rng.chance(50) {
+                self.queue.push_back(vec![4, x]);
+            }
+            return;
+        }
+        match self.rng.below(100) {
+            0..=13 => {
+                let s = self.send(x, 0);
+                self.queue.push_back(s);
+            }
+            14..=27 => {
+                let s = self.send(x, 1);
+                self.queue.push_back(s);
+            }
+            28..=31 => {
+                for _ in 0..self.rng.range(2, 12) {
+                    let m = self.rng.below(2);
+                    let s = self.send(x, m);
+                    self.queue.push_back(s);
+                }
+            }
+            32..=43 => {
+                // poll a pending future: the oldest, the newest or any
+                let p = &fb.pending[xi];
+                if !p.is_empty() {
+                    let id = match self.rng.below(3) {
+                        0 => p[0],
+                        1 => p[p.len() - 1],
+                        _ => p[self.rng.below(p.len() as u64) as usize],
+                    };
+                    self.queue.push_back(vec![2, x, id]);
+                } else if self.rng.chance(10) {
+                    self.queue.push_back(vec![2, x, self.rng.below(self.next_id + 2)]);
+                }
+            }
+            44..=48 => {
+                let p = &fb.pending[xi];
+                if !p.is_empty() {
+                    let id = if self.rng.chance(40) { p[0] } else { p[self.rng.below(p.len() as u64) as usize] };
+                    self.queue.push_back(vec![3, x, id]);
+                } else if self.rng.chance(10) {
+                    self.queue.push_back(vec![3, x, self.rng.below(self.next_id + 2)]);
+                }
+            }
+            49..=66 => {
+                if self.starve.map(|(sx, _)| sx == x).unwrap_or(false) {
+                    self.queue.push_back(vec![4, 1 - x]);
+                } else {
+                    self.queue.push_back(vec![4, x]);
+                }
+            }
+            67..=80 => {
+                let b = self.rng.pick(&[0u64, 1, 1, 2, 3, 128, 128, 128, 128]);
+                self.queue.push_back(vec![5, x, b]);
+            }
+            81..=82 => self.queue.push_back(vec![6, x]),
+            83 => {
+                if self.rng.chance(60) {
+                    self.queue.push_back(vec![7, x]);
+                }
+            }
+            84..=85 => self.queue.push_back(vec![8, x]),
+            86 => self.queue.push_back(vec![11, x]),
+            87..=92 => self.queue.push_back(vec![9, x, self.rng.chance(55) as u64, self.rng.chance(55) as u64]),
+            93 => {
+                if self.rng.chance(40) {
+                    self.queue.push_back(vec![10]);
+                }
+            }
+            94..=95 => {
+                if self.starve.is_none() {
+                    self.starve = Some((x, self.rng.range(5, 40)));
+                }
+            }
+            _ => {
+                // a fair stretch: both Connections and both users run for a while
+                for _ in 0..self.rng.range(2, 8) {
+                    self.queue.push_back(vec![4, 1]);
+                    self.queue.push_back(vec![4, 0]);
+                    self.queue.push_back(vec![5, self.rng.below(2), 128]);
+                }
+            }
+        }
     }
 }
 
-fn gen_sched(rng: &mut Rng, thorough: bool) -> Vec<u64> {
-    let big = rng.chance(25);
-    let single = rng.chance(35);
-    let only_mode = [rng.below(2), rng.below(2)];
-    let mut cfgs = [[0u64; 5]; 2];
-    for c in cfgs.iter_mut() {
-        let mx = if big { rng.pick(&[30_000u64, 50_000]) } else { rng.pick(&[8u64, 16, 64, 100]) };
-        *c = [rng.pick(&[1u64, 2, 16]), rng.pick(&[1u64, 2, 16]), rng.pick(&[1u64, 4, 64]), rng.pick(&[1u64, 2, 64]), mx];
+impl StepSrc for SGen {
+    fn next(&mut self, fb: &Feedback) -> Option<Vec<u64>> {
+        if self.emitted >= self.nsteps || self.tag > 60_000 {
+            return None;
+        }
+        let mut guard = 0;
+        while self.queue.is_empty() && guard < 1000 {
+            self.fill(fb);
+            guard += 1;
+        }
+        let s = self.queue.pop_front()?;
+        self.emitted += 1;
+        Some(s)
     }
-    let nsteps = if thorough { rng.range(40, 500) } else { rng.range(20, 140) };
-    let mut steps: Vec<Vec<u64>> = Vec::new();
-    let mut tag = 0u64;
-    let mut next_id = 0u64;
-    let mut ids: [Vec<u64>; 2] = [Vec::new(), Vec::new()];
-    let size = |rng: &mut Rng, x: usize| -> u64 {
-        let own = cfgs[x][4];
-        let other = cfgs[1 - x][4];
-        let m = own.min(other);
-        match rng.below(100) {
-            0..=3 => own + rng.range(1, 3),
-            4..=8 => m + 1,
-            9..=14 => m.max(4),
-            15..=19 => 4,
-            _ => if big { rng.range(m / 2, m) } else { rng.range(4, m.max(4)) },
-        }
-    };
-    if rng.chance(90) {
-        let first = rng.below(2);
-        steps.push(vec![6, first]);
-        steps.push(vec![6, 1 - first]);
-        if rng.chance(85) {
-            steps.push(vec![5, 1, 128]);
-            steps.push(vec![5, 0, 128]);
-        }
-    }
-    while steps.len() < nsteps as usize {
-        let x = rng.below(2);
-        let xi = x as usize;
-        match rng.below(100) {
-            0..=17 => {
-                tag += 1;
-                let m = if single { only_mode[xi] } else { 0 };
-                if m == 0 {
-                    steps.push(vec![0, x, tag, size(rng, xi)]);
-                } else {
-                    next_id += 1;
-                    ids[xi].push(next_id);
-                    steps.push(vec![1, x, next_id, tag, size(rng, xi)]);
-                }
-            }
-            18..=29 => {
-                tag += 1;
-                let m = if single { only_mode[xi] } else { 1 };
-                if m == 0 {
-                    steps.push(vec![0, x, tag, size(rng, xi)]);
-                } else {
-                    next_id += 1;
-                    ids[xi].push(next_id);
-                    steps.push(vec![1, x, next_id, tag, size(rng, xi)]);
-                }
-            }
-            30..=33 => {
-                // burst
-                let n = rng.range(2, 12);
-                for _ in 0..n {
-                    tag += 1;
-                    let m = if single { only_mode[xi] } else { rng.below(2) };
-                    if m == 0 {
-                        steps.push(vec![0, x, tag, size(rng, xi)]);
-                    } else {
-                        next_id += 1;
-                        ids[xi].push(next_id);
-                        steps.push(vec![1, x, next_id, tag, size(rng, xi)]);
-                    }
-                }
-            }
-            34..=41 => {
-                if let Some(id) = ids[xi].last().copied().filter(|_| rng.chance(50)).or_else(|| {
-                    if ids[xi].is_empty() { None } else { Some(ids[xi][rng.below(ids[xi].len() as u64) as usize]) }
-                }) {
-                    steps.push(vec![2, x, id]);
-                }
-            }
-            42..=45 => {
-                if !ids[xi].is_empty() {
-                    let i = rng.below(ids[xi].len() as u64) as usize;
-                    let id = ids[xi].remove(i);
-                    steps.push(vec![3, x, id]);
-                }
-            }
-            46..=67 => steps.push(vec![4, x]),
-            68..=82 => steps.push(vec![5, x, rng.pick(&[0u64, 1, 1, 2, 3, 128, 128, 128, 128])]),
-            83..=86 => steps.push(vec![6, x]),
-            87..=88 => steps.push(vec![7, x]),
-            89..=91 => steps.push(vec![8, x]),
-            92..=97 => steps.push(vec![9, x, rng.chance(55) as u64, rng.chance(55) as u64]),
-            98 => steps.push(vec![10]),
-            _ => {
-                // a fair stretch: both Connections and both users run for a while
-                for _ in 0..rng.range(2, 8) {
-                    steps.push(vec![4, 1]);
-                    steps.push(vec![4, 0]);
-                    steps.push(vec![5, rng.below(2), 128]);
-                }
-            }
-        }
-        if tag > 60_000 {
-            break;
-        }
-    }
-    encode_sched(&cfgs[1], &cfgs[0], &steps, &[])
+}
+
+fn gen_run_sched(rng: Rng, thorough: bool) -> (Vec<u64>, Vec<u64>) {
+    let mut g = SGen::new(rng, thorough);
+    let (ca, cb) = (g.cfgs[1], g.cfgs[0]);
+    run_src(ca, cb, &mut g)
 }
 
 // ---------------------------------------------------------------- generator
@@ -1309,7 +1441,7 @@ pub fn main(args: &Args) {
         let (c, t) = if i % 2 == 0 {
             run_case(&gen_case(&mut r, thorough))
         } else {
-            run_sched(&gen_sched(&mut r, thorough))
+            gen_run_sched(r, thorough)
         };
         out.emit(&c, &t);
     }
